@@ -474,6 +474,12 @@ fn store_scenario(small: bool) -> SimResult {
         if choose(2) == 0 {
             ad = ad.with_p2p(p).unwrap_or_else(|a| a);
         }
+        if small && choose(6) == 0 {
+            // custom data can create a record as well (for a known or an entirely new peer): the peer bound covers that path too
+            let q = if choose(2) == 0 { PeerId::random() } else { p };
+            a.swarm.borrow_mut().behaviour_mut().store.store_mut().insert_custom_data(&q, ());
+            probe("custom_data_inserted");
+        }
         let op = choose(8);
         note_val("op", op as u64);
         let desc;
